@@ -2,8 +2,12 @@ mod alloc;
 mod checks;
 mod conv;
 mod driver;
+mod duo;
 mod gen;
+mod peer;
 mod refcodec;
+mod rframe;
+mod simnet;
 mod spec;
 
 use driver::*;
@@ -105,12 +109,10 @@ fn worker(a: &[String]) {
         shard: a[3].parse().unwrap(),
         nshards: a[4].parse().unwrap(),
         journal: a[6].clone(),
-        open_findings: open
-            .iter()
-            .filter_map(|f| f["id"].as_str().map(|s| s.to_string()))
-            .collect(),
+        open_findings: open_ids_for(meta.id),
     };
     install_panic_hook();
+    refcodec::AVOID_ZERO_WIDTH_DEFAULT.store(ctx.is_open("KF-codec-array-of-null"), std::sync::atomic::Ordering::Relaxed);
     let mut rep = Report::default();
     if ctx.shard == 0 {
         // regression tier: committed replays, then witnesses of open findings
@@ -170,6 +172,7 @@ fn replay_file(path: &str) {
     let id = j["property"].as_str().expect("property");
     let meta = find_prop(id);
     install_panic_hook();
+    refcodec::AVOID_ZERO_WIDTH_DEFAULT.store(open_ids_for(id).iter().any(|o| o == "KF-codec-array-of-null"), std::sync::atomic::Ordering::Relaxed);
     let variant = j["variant"].as_str().unwrap_or("").to_string();
     let r = guarded(|| (meta.replay)(&variant, &j["case"]));
     match r {
